@@ -21,6 +21,10 @@ T = {
          "Seeded SPD systems (cond up to 1e8, negative off-diagonals, five right-hand-side families, five warm-start modes) and seeded inversions over the settings grid in both formalisms under the test and the production configuration are solved by the real code; every returned s must satisfy the KKT certificate of the NNLS problem (backward error for the unconstrained solver), agree with scipy.optimize.nnls when well conditioned, be exactly zero on forced parameters, and per-object model data must equal B_obj s_obj and sum to the total. Frame capture proves the warm-start / constraint-fixing paths actually ran. Exploration.", "DESIGN.md 3/C05"),
  "C06": ("runtime monitoring: per-sub-pixel geometric oracle (cell containment, barycentric reproduction, brute-force hull test) on real mappers, dense/sparse decode, adjacency reference; icontract row-sum contract",
          "Seeded rectangular and Delaunay mappers (per-pixel sub-sizes 1..4, distorted source grids, non-square meshes, points outside the hull) are built with the real code; every sub-pixel's reported cell/triangle and weights are decided geometrically, the dense matrix and the unique-mapping encoding are rebuilt independently, rows must be non-negative and sum to one, neighbour lists must equal the mesh adjacency. Exploration.", "DESIGN.md 3/C06"),
+ "C07": ("runtime monitoring: eigenvalue / Cholesky / quadratic-form oracles on the real regularization schemes over seeded meshes, block-structure and permutation monitors on real inversions",
+         "All nine schemes are evaluated by the real code on seeded rectangular (non-square included) and Delaunay meshes with log-uniform coefficients and adapt images of dynamic range up to 1e4; symmetry (1e-10), PSD for all, PD + successful Cholesky for the schemes the statement names, the closed quadratic forms of the constant and adaptive-brightness schemes on random and adversarial vectors against an independently computed adjacency, and the block-diagonal layout (zero block for unregularised objects, order under permutations, reduced matrix) are decided per case. Exploration.", "DESIGN.md 3/C07"),
+ "C08": ("runtime monitoring: definitional NumPy oracle on unmasked pixels next to the real FitImaging, metamorphic garbage-invariance in masked pixels, evidence terms recomputed by slogdet on the regularised index set; icontract contracts on fit_util",
+         "Seeded fits (signed data of large dynamic range, background sky, slim and garbage-carrying masked-native mode, with and without inversions whose objects are fully / partially / not regularised) are evaluated by the real code; every scalar statistic, derived map, evidence term, the evidence composition and the figure-of-merit selection are compared with their definitions on values[~mask], and two native datasets differing only in masked pixels must give bit-identical statistics. Exploration.", "DESIGN.md 3/C08"),
 }
 REASON_WIP = "check not built yet in this revision (work in progress; the property is decidable by runtime monitoring, see DESIGN.md section 3)"
 ALL = ["C%02d" % i for i in range(1, 21)]
